@@ -458,9 +458,18 @@ def save_pred(c):
 @st.composite
 def driver_cases(draw, tier):
     cfg = sim.base_cfg([5, 6, 7, 5], draw(st.sampled_from([0.8, 0.0])), 2.0, eps=1e-2, m=1, n=1, dt=1)
-    return {"cfg": cfg, "P": draw(st.sampled_from([2, 3, 4])), "steps": draw(st.integers(1, 2)),
-            "saveStep": draw(st.integers(1, 3)), "eager": draw(st.sampled_from([True, True, False])),
-            "schedule": draw(gen.schedules(24))}
+    c = {"cfg": cfg, "P": draw(st.sampled_from([2, 3, 4])), "steps": draw(st.integers(1, 2)),
+         "saveStep": draw(st.integers(1, 3)), "eager": draw(st.sampled_from([True, True, False])),
+         "schedule": draw(gen.schedules(24))}
+    if draw(st.booleans()):
+        # the run is ended by its wall-clock limit, read from clocks that run at different speeds on different ranks:
+        # the ranks disagree about the time left at some step and must still leave the loop together
+        c["steps"] = draw(st.integers(2, 4))
+        tick = draw(st.sampled_from([1.0, 2.0, 4.0]))
+        c["clock"] = [tick, draw(st.sampled_from([0.0, 0.05, 0.3]))]
+        # the limit falls somewhere inside the run: the driver reads its clock a few dozen times per step
+        c["tMax"] = int(tick * draw(st.integers(25, 90)))
+    return c
 
 
 def driver_pred(c):
@@ -468,11 +477,13 @@ def driver_pred(c):
         with open("consts.json", "w") as fh:
             fh.write(sim.constants_json(c["cfg"]))
         c05.run_driver(c["P"], "out", "consts.json", c["steps"] * c["cfg"]["dt"], c["saveStep"], c["schedule"],
-                       eager=c["eager"], key="C06:driver")
+                       eager=c["eager"], key="C06:driver", tMax=c.get("tMax", 1000000),
+                       clock=tuple(c["clock"]) if c.get("clock") else None)
         files = sorted(os.listdir("out"))
     if "initParams.json" not in files:
         raise Violation("C06:driver:no-params", "driver finished without writing initParams.json (%s)" % files)
-    return {"nontrivial": True, "labels": ["P=%d" % c["P"], "eager" if c["eager"] else "strict"], "evals": 1}
+    return {"nontrivial": True, "labels": ["P=%d" % c["P"], "eager" if c["eager"] else "strict",
+                                           "virtual-clock-limit" if c.get("clock") else "ends-at-tEnd"], "evals": 1}
 
 
 # ----------------------------------------------------------------------------------------------
@@ -571,8 +582,8 @@ SUBS = {"layouts": Sub(layout_pred, strategy=layout_cases), "plotrank": Sub(plot
 def jobs(tier):
     layout_pred.__defaults__[0][0] = BUDGET[tier]
     if tier == "quick":
-        n1, n2, n3, n4, n5 = 60, 50, 6, 2, 2
-        k1, k2, k3, k4 = 6, 3, 6, 2
+        n1, n2, n3, n4, n5 = 60, 50, 6, 3, 2
+        k1, k2, k3, k4 = 6, 3, 6, 4
     else:
         n1, n2, n3, n4, n5 = 600, 1500, 60, 24, 12
         k1, k2, k3, k4 = 16, 6, 8, 4
